@@ -180,6 +180,11 @@ class Ctx:
             if not hc:
                 continue
             n += len(hc)
+            h_assumed = []
+            for am in assume:
+                for (c, arm) in self.find_conds(h, self._lift_matcher(am, f, call, h)):
+                    if arm in c.arms:
+                        h_assumed.append(self.edge(c, arm))
             if h.returns_result():
                 if result_fate(f, call) not in ('try', 'returned'):
                     continue
@@ -187,7 +192,7 @@ class Ctx:
                 hrets = h.ret_blocks()
                 good = False
                 for (c, arm) in hc:
-                    if arm in c.arms and not (set(hrets) & h.reach([0], removed=[self.edge(c, arm)], blocked=h.errblocks)):
+                    if arm in c.arms and not (set(hrets) & h.reach([0], removed=[self.edge(c, arm)] + h_assumed, blocked=h.errblocks)):
                         good = True
                 if not good:
                     continue
@@ -201,7 +206,7 @@ class Ctx:
                 tb_ = true_blocks(h)
                 good = False
                 for (c, arm) in hc:
-                    if arm in c.arms and not (set(tb_) & h.reach([0], removed=[self.edge(c, arm)])):
+                    if arm in c.arms and not (set(tb_) & h.reach([0], removed=[self.edge(c, arm)] + h_assumed)):
                         good = True
                 if not good:
                     continue
